@@ -145,7 +145,15 @@ fn item<C: Suite>(ctx: &mut Ctx, share_kind: &str, src: &str, rep: usize) {
     ctx.class(format!("commit/{share_kind}/{src}/m={m}"));
 
     // preprocess(k)
-    for k in [0u8, 1, 2, 7, if ctx.quick() { 16 } else { 255 }] {
+    // batch sizes up to the limit of the u8 parameter (127 / 128: the count doubled no longer fits a u8)
+    let mut ks: Vec<u8> = vec![0, 1, 2, 7, if ctx.quick() { 16 } else { 255 }];
+    let slow = C::NAME == "ed448";
+    if rep == 0 && (!slow || src == "chacha" || !ctx.quick()) {
+        ks.extend([127u8, 128, 255]);
+    } else if rep == 1 && !ctx.quick() {
+        ks.extend([63u8, 64, 129, 200, 254]);
+    }
+    for k in ks {
         let mut rng = make_rng(ctx, src, rep + k as usize);
         let (ns, cs) = round1::preprocess::<C, _>(k, &share, &mut rng);
         if ns.len() != k as usize || cs.len() != k as usize {
